@@ -13,6 +13,7 @@ import TE.Model.Curve
 import TE.Gen.KernelsCurve
 import TE.Lemmas.Kernels
 import TE.Lemmas.KernelsCurve
+import TE.Props.C05
 namespace TE.C05K
 open TE TE.TX TE.TXL
 set_option linter.unusedSimpArgs false
@@ -23,7 +24,7 @@ set_option linter.unusedSimpArgs false
     `split` — are not in this table yet: they stay with the differential run of TE/Driver/Curve.lean). -/
 theorem kernels_listed :
     Gen.Curve.kernels.map (·.name) = ["riemann_integral", "compute_for_each_class", "binary_precision_recall_curve_compute",
-      "binary_auroc_compute_jit"] := by
+      "binary_auroc_compute_jit", "binary_auprc_compute", "recall_at_precision", "binary_recall_at_fixed_precision_compute"] := by
   kernel_proof "kernels_listed: the kernel table of C05 changed" => decide
 
 /-- nothing is untranslated; one kernel has a branch outside the grammar: the `num_tasks > 1` branch of
@@ -297,5 +298,274 @@ theorem k_binary_auroc_weighted (xs ts ws : List Q) (h : xs.length = ts.length) 
 
 
 example : ([1/2, 1/4, 1/2] : List Q).length = ([1, 0, 0] : List Q).length ∧ ([1/2, 1/4, 1/2] : List Q) ≠ [] := by decide
+
+/-! ## 4. `_binary_auprc_compute` (auprc.py), one task
+
+  `p, r, t = _compute_for_each_class(input, target, 1); return _riemann_integral(r, p)`: the two helpers live in other
+  modules, so the generated term REFERS to their generated terms (`.call3 … k_compute_for_each_class`,
+  `.call2 … k_riemann_integral`: arguments evaluated here, the callee on exactly its parameters) and this theorem is the
+  composition of `k_compute_for_each_class_eq`, `TE.C05.prCurve_model_eq_spec` (the curve has no NaN and its precision and
+  recall have one length) and `k_riemann_integral_eq`.  The `for i in range(num_tasks)` branch — a Python-level loop that
+  collects one 0-d tensor per task — is `.mapRange (.var "num_tasks") "$i0" body` with `input[i, :]` = `.rowDyn`. -/
+
+/-- `_binary_auprc_compute(input, target, 1)` on a non-empty 1-d input of one length = `binaryAuprc`. -/
+theorem k_binary_auprc_compute_one (xs ts : List Q) (h : xs.length = ts.length) (hne : xs ≠ []) :
+    TX.eval [("input", vecQ xs), ("target", vecQ ts), ("num_tasks", .int 1)] Gen.Curve.k_binary_auprc_compute
+      = (Curve.binaryAuprc xs ts).map .scalar := by
+  have hls : Spec.Curve.posLS xs ts ≠ [] := by
+    cases xs with
+    | nil => exact absurd rfl hne
+    | cons x xs' =>
+      cases ts with
+      | nil => simp at h
+      | cons t ts' => simp [Spec.Curve.posLS]
+  have hc := k_compute_for_each_class_eq xs ts h hne
+  rw [TE.C05.prCurve_model_eq_spec xs ts hls] at hc
+  have hlen : (Spec.Curve.prCurve (Spec.Curve.posLS xs ts)).recall.length
+      = (Spec.Curve.prCurve (Spec.Curve.posLS xs ts)).precision.length := by
+    simp [Spec.Curve.prCurve]
+  have hr := k_riemann_integral_eq _ _ hlen
+  simp only [vecQ, Except.map, prcVal] at hc hr
+  kernel_proof "k_binary_auprc_compute_one: the generated term of _binary_auprc_compute no longer evaluates to the model binaryAuprc" =>
+    unfold Gen.Curve.k_binary_auprc_compute
+    tx_eval [hc, hr, fstV, sndV, Curve.binaryAuprc, TE.C05.prCurve_model_eq_spec xs ts hls, Curve.auprcOf,
+      TE.CurveL.allQ?_map_val, Except.map, bind, Except.bind]
+
+/-- one task: the curve of the (referenced) `k_compute_for_each_class` on the values of the argument terms, then the
+    (referenced) `k_riemann_integral` of (recall, precision) = `binaryAuprc` -/
+theorem k_binary_auprc_row (xs ts : List Q) (h : xs.length = ts.length) (hne : xs ≠ []) (env : Env)
+    (a b : TExpr) (ha : TX.eval env a = .ok (vecQ xs)) (hb : TX.eval env b = .ok (vecQ ts)) :
+    TX.eval env (auprcTerm Gen.Curve.k_compute_for_each_class Gen.Curve.k_riemann_integral a b)
+      = (Curve.binaryAuprc xs ts).map .scalar := by
+  unfold auprcTerm
+  have hls : Spec.Curve.posLS xs ts ≠ [] := by
+    cases xs with
+    | nil => exact absurd rfl hne
+    | cons x xs' =>
+      cases ts with
+      | nil => simp at h
+      | cons t ts' => simp [Spec.Curve.posLS]
+  have hc := k_compute_for_each_class_eq xs ts h hne
+  rw [TE.C05.prCurve_model_eq_spec xs ts hls] at hc
+  have hlen : (Spec.Curve.prCurve (Spec.Curve.posLS xs ts)).recall.length
+      = (Spec.Curve.prCurve (Spec.Curve.posLS xs ts)).precision.length := by
+    simp [Spec.Curve.prCurve]
+  have hr := k_riemann_integral_eq _ _ hlen
+  simp only [Except.map, prcVal] at hc hr
+  simp only [TX.eval, ha, hb, ok_bind, hc, fstV, sndV]
+  simp only [vecQ] at hr
+  simp only [hr, Curve.binaryAuprc, TE.C05.prCurve_model_eq_spec xs ts hls, Curve.auprcOf,
+      TE.CurveL.allQ?_map_val, Except.map, bind, Except.bind, scalarQ]
+
+
+/-- `num_tasks` rows (2-d input; also one row): `torch.tensor([auprc of row i for i in range(num_tasks)])` = `binaryAuprcTasks`
+    = the definition's AUPRC of every row (`TE.C05.auprc_tasks_eq`); rows non-empty, scores and targets of one length. -/
+theorem k_binary_auprc_compute_tasks (rows : List (List Q × List Q)) (h : ∀ r ∈ rows, r.1.length = r.2.length ∧ r.1 ≠ []) :
+    TX.eval [("input", .mat (rows.map fun r => r.1.map XQ.val)), ("target", .mat (rows.map fun r => r.2.map XQ.val)),
+        ("num_tasks", .int rows.length)] Gen.Curve.k_binary_auprc_compute
+      = (Curve.binaryAuprcTasks rows).map .vec := by
+  have hls : ∀ r ∈ rows, Spec.Curve.posLS r.1 r.2 ≠ [] := by
+    intro r hr
+    obtain ⟨h1, h2⟩ := h r hr
+    rcases r with ⟨xs, ts⟩
+    cases xs with
+    | nil => exact absurd rfl h2
+    | cons x xs' =>
+      cases ts with
+      | nil => simp at h1
+      | cons t ts' => simp [Spec.Curve.posLS]
+  rw [TE.C05.auprc_tasks_eq rows hls]
+  kernel_proof "k_binary_auprc_compute_tasks: the generated term of _binary_auprc_compute no longer evaluates to the model binaryAuprcTasks" =>
+    have hk : Gen.Curve.k_binary_auprc_compute = .ite (.pyAnd (.pyEq (.var "num_tasks") (.int 1)) (.pyEq (.ndim (.var "input")) (.int 1)))
+        (auprcTerm Gen.Curve.k_compute_for_each_class Gen.Curve.k_riemann_integral (.var "input") (.var "target"))
+        (.mapRange (.var "num_tasks") "$i0" (auprcTerm Gen.Curve.k_compute_for_each_class Gen.Curve.k_riemann_integral
+          (.rowDyn (.var "input") (.var "$i0")) (.rowDyn (.var "target") (.var "$i0")))) := rfl
+    rw [hk]
+    have hrow : ∀ j ∈ List.range rows.length,
+        TX.eval [("$i0", .int ((j : Nat) : Int)), ("input", .mat (rows.map fun r => r.1.map XQ.val)),
+            ("target", .mat (rows.map fun r => r.2.map XQ.val)), ("num_tasks", .int rows.length)]
+          (auprcTerm Gen.Curve.k_compute_for_each_class Gen.Curve.k_riemann_integral
+            (.rowDyn (.var "input") (.var "$i0")) (.rowDyn (.var "target") (.var "$i0")))
+          = .ok (.scalar (.val (Spec.Curve.auprc (Spec.Curve.posLS (rows.getD j ([], [])).1 (rows.getD j ([], [])).2)))) := by
+      intro j hj
+      have hj' : j < rows.length := List.mem_range.mp hj
+      have hmem : rows.getD j ([], []) ∈ rows := by
+        simp [List.getD_eq_getElem?_getD, hj']
+      obtain ⟨h1, h2⟩ := h _ hmem
+      rw [k_binary_auprc_row _ _ h1 h2, TE.C05.auprc_eq _ _ (hls _ hmem)]
+      · rfl
+      · simp only [TX.eval, List.lookup, String.reduceBEq, ok_bind]
+        rw [rowDynV_nat _ _ (by simpa using hj')]
+        simp [vecQ, List.getD_eq_getElem?_getD, hj']
+      · simp only [TX.eval, List.lookup, String.reduceBEq, ok_bind]
+        rw [rowDynV_nat _ _ (by simpa using hj')]
+        simp [vecQ, List.getD_eq_getElem?_getD, hj']
+    simp only [TX.eval, List.lookup, String.reduceBEq, ok_bind, ndimV, pyEqV, asBool, pure_eq_ok]
+    have hcond : (if ((rows.length : Int) == 1) = true then (Except.ok (Val.bool ((2 : Int) == 1)) : Except Err Val)
+        else Except.ok (Val.bool false)) = .ok (.bool false) := by
+      split <;> rfl
+    have h0 : (0 : Int) ≤ (rows.length : Int) := by omega
+    simp only [hcond, ok_bind, Bool.false_eq_true, if_false, sizeOf?, h0, if_true, Int.toNat_natCast]
+    rw [seqE_congr_ok _ _ _ hrow]
+    simp only [ok_bind, collectV, List.map_map, Function.comp_def, Val.asElem, seqE_map_ok, pure_eq_ok, Except.map]
+    rw [range_map_getD rows ([], []) (fun r => XQ.val (Spec.Curve.auprc (Spec.Curve.posLS r.1 r.2)))]
+
+example : ∀ r ∈ [(([1/2, 1/4] : List Q), ([1, 0] : List Q)), ([1/2, 1/4], [0, 1])], r.1.length = r.2.length ∧ r.1 ≠ [] := by
+  decide
+
+/-- an empty 1-d input: `num_tp[-1]` raises inside `_compute_for_each_class`. -/
+theorem k_binary_auprc_compute_empty :
+    TX.eval [("input", vecQ []), ("target", vecQ []), ("num_tasks", .int 1)] Gen.Curve.k_binary_auprc_compute
+      = (Curve.binaryAuprc [] []).map .scalar := by
+  have hc := k_compute_for_each_class_empty
+  rw [TE.C05.prCurve_empty] at hc
+  simp only [vecQ, Except.map] at hc
+  kernel_proof "k_binary_auprc_compute_empty: the generated term no longer evaluates to the model binaryAuprc" =>
+    unfold Gen.Curve.k_binary_auprc_compute
+    tx_eval [hc]
+    simp only [Curve.binaryAuprc, TE.C05.prCurve_empty, bind, Except.bind, Except.map]
+
+/-- the theorem is the definition's AUPRC: `Σₖ (rₖ − rₖ₊₁)·pₖ` over the points of the curve of the definition. -/
+theorem k_binary_auprc_compute_one_textbook (xs ts : List Q) (h : xs.length = ts.length) (hne : xs ≠ []) :
+    TX.eval [("input", vecQ xs), ("target", vecQ ts), ("num_tasks", .int 1)] Gen.Curve.k_binary_auprc_compute
+      = .ok (scalarQ (Spec.Curve.auprc (Spec.Curve.posLS xs ts))) := by
+  have hls : Spec.Curve.posLS xs ts ≠ [] := by
+    cases xs with
+    | nil => exact absurd rfl hne
+    | cons x xs' =>
+      cases ts with
+      | nil => simp at h
+      | cons t ts' => simp [Spec.Curve.posLS]
+  rw [k_binary_auprc_compute_one xs ts h hne, TE.C05.auprc_eq xs ts hls]; rfl
+
+example : ([1/2, 1/2, 1/4, 3/4] : List Q).length = ([1, 0, 1, 0] : List Q).length ∧ ([1/2, 1/2, 1/4, 3/4] : List Q) ≠ [] := by decide
+
+/-! ## 5. recall at fixed precision: `_recall_at_precision` (TorchScript) and `_binary_recall_at_fixed_precision_compute`
+
+  `torch.max(recall[precision >= min_precision])`, the appended pseudo-threshold `-1`, `torch.max(thresholds[recall == max_recall])`,
+  `torch.abs`.  `torch.max` of an empty selection raises (`listMax`). -/
+
+/-- output of the kernel: `(max_recall, |best_threshold|)` -/
+def rapVal (r : XQ × XQ) : Val := .pair (.scalar r.1) (.scalar r.2)
+
+/-- `_recall_at_precision(precision, recall, thresholds, min_precision)` on a curve of finite values (precision and recall
+    of one length, one threshold less) = `recallAtPrecision`, errors of `torch.max` included. -/
+theorem k_recall_at_precision_eq (P R T : List Q) (m : Q) (h1 : R.length = P.length) (h2 : T.length + 1 = R.length) :
+    TX.eval [("precision", vecQ P), ("recall", vecQ R), ("thresholds", vecQ T), ("min_precision", .num m)]
+        Gen.Curve.k_recall_at_precision
+      = (Curve.recallAtPrecision ⟨P.map .val, R.map .val, T⟩ m).map rapVal := by
+  obtain ⟨W, rfl, rfl⟩ := exists_rows2 R P h1
+  obtain ⟨V, hV1, hV2⟩ := exists_rows2 (T ++ [-1]) (W.map (·.1)) (by simpa using h2)
+  kernel_proof "k_recall_at_precision_eq: the generated term of _recall_at_precision no longer evaluates to the model recallAtPrecision" =>
+    unfold Gen.Curve.k_recall_at_precision
+    simp only [Curve.recallAtPrecision, TE.CurveL.allQ?_map_val, zip_fst_snd]
+    tx_eval [qcmp_ge_le, maxAllV_map, catV, fullV_one_flt]
+    generalize Curve.listMax _ = M
+    cases M with
+    | error e => rfl
+    | ok mx =>
+      have hcat : T.map XQ.val ++ [XQ.val (-1)] = (T ++ [-1]).map XQ.val := by simp
+      simp only [map_ok, ok_bind, hcat]
+      rw [hV1, hV2]
+      tx_eval [xcmp_val, qcmp_eq, maxAllV_map, zip_fst_snd]
+      have hlen : V.length = W.length := by simpa using (congrArg List.length hV2).symm
+      have hmask : W.map (fun x => XQ.val (b2q (mx == x.fst))) = V.map (fun x => XQ.val (b2q (x.snd == mx))) := by
+        have := congrArg (List.map fun a => XQ.val (b2q (a == mx))) hV2
+        simp only [List.map_map, Function.comp_def] at this
+        rw [← this]
+        exact List.map_congr_left fun a _ => by rw [Bool.beq_comm]
+      simp only [hmask, hlen, if_true, sel_same, ok_bind, maxAllV_map]
+      generalize Curve.listMax _ = B
+      cases B with
+      | error e => rfl
+      | ok b => rfl
+
+example : ([1, 1/2, 1] : List Q).length = ([1/2, 1/3, 1] : List Q).length ∧ ([1/4, 1/2] : List Q).length + 1 = 3 := by decide
+
+/-- `_binary_recall_at_fixed_precision_compute(input, target, min_precision)`: the curve of the (referenced) generated
+    `_binary_precision_recall_curve_compute`, then the inlined `_recall_at_precision` = `binaryRecallAtPrecision`. -/
+theorem k_binary_recall_at_fixed_precision_compute_eq (xs ts : List Q) (m : Q) (h : xs.length = ts.length) (hne : xs ≠ []) :
+    TX.eval [("input", vecQ xs), ("target", vecQ ts), ("min_precision", .num m)]
+        Gen.Curve.k_binary_recall_at_fixed_precision_compute
+      = (Curve.binaryRecallAtPrecision xs ts m).map rapVal := by
+  have hls : Spec.Curve.posLS xs ts ≠ [] := by
+    cases xs with
+    | nil => exact absurd rfl hne
+    | cons x xs' =>
+      cases ts with
+      | nil => simp at h
+      | cons t ts' => simp [Spec.Curve.posLS]
+  have hc := k_binary_precision_recall_curve_compute_eq xs ts h hne
+  rw [TE.C05.prCurve_model_eq_spec xs ts hls] at hc
+  have h1 : (Spec.Curve.prCurve (Spec.Curve.posLS xs ts)).recall.length
+      = (Spec.Curve.prCurve (Spec.Curve.posLS xs ts)).precision.length := by simp [Spec.Curve.prCurve]
+  have h2 : (Spec.Curve.prCurve (Spec.Curve.posLS xs ts)).thresholds.length + 1
+      = (Spec.Curve.prCurve (Spec.Curve.posLS xs ts)).recall.length := by simp [Spec.Curve.prCurve]
+  simp only [Curve.binaryRecallAtPrecision, TE.C05.prCurve_model_eq_spec xs ts hls]
+  generalize (Spec.Curve.prCurve (Spec.Curve.posLS xs ts)).precision = P at hc h1 h2 ⊢
+  generalize (Spec.Curve.prCurve (Spec.Curve.posLS xs ts)).recall = R at hc h1 h2 ⊢
+  generalize (Spec.Curve.prCurve (Spec.Curve.posLS xs ts)).thresholds = T at hc h1 h2 ⊢
+  simp only [vecQ, Except.map, prcVal] at hc
+  obtain ⟨W, rfl, rfl⟩ := exists_rows2 R P h1
+  obtain ⟨V, hV1, hV2⟩ := exists_rows2 (T ++ [-1]) (W.map (·.1)) (by simpa using h2)
+  kernel_proof "k_binary_recall_at_fixed_precision_compute_eq: the generated term no longer evaluates to the model binaryRecallAtPrecision" =>
+    unfold Gen.Curve.k_binary_recall_at_fixed_precision_compute
+    simp only [ok_bind, Curve.recallAtPrecision, TE.CurveL.allQ?_map_val, zip_fst_snd]
+    tx_eval [hc, fstV, sndV, qcmp_ge_le, maxAllV_map, catV, fullV_one_flt]
+    generalize Curve.listMax _ = M
+    cases M with
+    | error e => rfl
+    | ok mx =>
+      have hcat : T.map XQ.val ++ [XQ.val (-1)] = (T ++ [-1]).map XQ.val := by simp
+      simp only [map_ok, ok_bind, hcat]
+      rw [hV1, hV2]
+      tx_eval [xcmp_val, qcmp_eq, maxAllV_map, zip_fst_snd]
+      have hlen : V.length = W.length := by simpa using (congrArg List.length hV2).symm
+      have hmask : W.map (fun x => XQ.val (b2q (x.fst == mx))) = V.map (fun x => XQ.val (b2q (x.snd == mx))) := by
+        have := congrArg (List.map fun a => XQ.val (b2q (a == mx))) hV2
+        simpa only [List.map_map, Function.comp_def] using this
+      simp only [hmask, hlen, if_true, sel_same, ok_bind, maxAllV_map]
+      generalize Curve.listMax _ = B
+      cases B with
+      | error e => rfl
+      | ok b => rfl
+
+/-- an empty input: the curve kernel raises. -/
+theorem k_binary_recall_at_fixed_precision_compute_empty (m : Q) :
+    TX.eval [("input", vecQ []), ("target", vecQ []), ("min_precision", .num m)]
+        Gen.Curve.k_binary_recall_at_fixed_precision_compute
+      = (Curve.binaryRecallAtPrecision [] [] m).map rapVal := by
+  have hc : TX.eval [("input", vecQ []), ("target", vecQ [])] Gen.Curve.k_binary_precision_recall_curve_compute
+      = .error .runtime := by
+    unfold Gen.Curve.k_binary_precision_recall_curve_compute
+    tx_eval [sortDescV, xargsortDesc, List.mergeSort_nil, List.zip_nil_left, List.map_nil, List.length_nil, List.range_zero,
+      fstV, sndV, gatherLastV, gatherRow, idxList, seqE, vecOp, xdiff, xcumsumFrom, List.nil_append, List.length_cons,
+      Nat.zero_ne_one, lastV, List.getLast?_nil, scriptedE, bind, Except.bind]
+  simp only [vecQ] at hc
+  kernel_proof "k_binary_recall_at_fixed_precision_compute_empty: the generated term no longer evaluates to the model binaryRecallAtPrecision" =>
+    unfold Gen.Curve.k_binary_recall_at_fixed_precision_compute
+    tx_eval [hc]
+    simp only [Curve.binaryRecallAtPrecision, TE.C05.prCurve_empty, bind, Except.bind, Except.map]
+
+/-- hence the definition: the largest recall among the curve points whose precision reaches the bound, and the absolute
+    value of the largest threshold among the points of that recall (`TE.C05.recall_at_precision_eq`). -/
+theorem k_binary_recall_at_fixed_precision_compute_textbook (xs ts : List Q) (m : Q) (h : xs.length = ts.length)
+    (hne : xs ≠ []) (hp : m ≤ 1) :
+    ∃ r t, TX.eval [("input", vecQ xs), ("target", vecQ ts), ("min_precision", .num m)]
+          Gen.Curve.k_binary_recall_at_fixed_precision_compute = .ok (rapVal (.val r, .val (Curve.qabs t)))
+      ∧ Spec.Curve.IsMaxRecall (Spec.Curve.prCurve (Spec.Curve.posLS xs ts)) m r
+      ∧ Spec.Curve.IsBestThreshold (Spec.Curve.prCurve (Spec.Curve.posLS xs ts)) r t := by
+  have hls : Spec.Curve.posLS xs ts ≠ [] := by
+    cases xs with
+    | nil => exact absurd rfl hne
+    | cons x xs' =>
+      cases ts with
+      | nil => simp at h
+      | cons t ts' => simp [Spec.Curve.posLS]
+  obtain ⟨r, t, h1, h2, h3⟩ := TE.C05.recall_at_precision_eq xs ts m hls hp
+  exact ⟨r, t, by rw [k_binary_recall_at_fixed_precision_compute_eq xs ts m h hne, h1]; rfl, h2, h3⟩
+
+example : ([1/2, 1/2, 1/4, 3/4] : List Q).length = ([1, 0, 1, 0] : List Q).length ∧ ([1/2, 1/2, 1/4, 3/4] : List Q) ≠ []
+    ∧ (1/2 : Q) ≤ 1 := by decide +kernel
 
 end TE.C05K
